@@ -71,6 +71,12 @@ Begin(n) ==
                   ELSE IF M.start >= 0
                   THEN Invoke(M, IdleCfg(s2), Len(s2.insts), M.start, <<>>, FuelPerCall, MaxDepth)
                   ELSE done(s2)
+          [] op.op = "child" ->
+              LET s2 == InstantiateChild(M, st, op.inst)
+              IN  IF ~SegmentsInBounds(M, s2, Len(s2.insts)) THEN [IdleCfg(st) EXCEPT !.status = "undefined"]
+                  ELSE IF M.start >= 0
+                  THEN Invoke(M, IdleCfg(s2), Len(s2.insts), M.start, <<>>, FuelPerCall, MaxDepth)
+                  ELSE done(s2)
           [] op.op = "call" ->
               Invoke(M, IdleCfg(st), op.inst, ExportIndex(M, op.export, "func"),
                      T([j \in 1..Len(op.args) |-> V(op.args[j].t, op.args[j].b)]), FuelPerCall, MaxDepth)
